@@ -167,6 +167,16 @@ class _ReadSourceGenerator:
             if not issubclass(field_type, SUPPORTED_TYPES):
                 raise TypeError(f"Unsupported type for compiler: {field_type}")
 
+            element_type = field_type
+            while issubclass(element_type, BaseArray):
+                element_type = element_type.type
+                if isinstance(element_type, EnumMetaType):
+                    element_type = element_type.type
+
+            if not issubclass(element_type, SUPPORTED_TYPES):
+                # Arrays are supported, but only of element types that are
+                raise TypeError(f"Unsupported type for compiler: {element_type}")
+
             if prev_was_bits and not field.bits:
                 yield "bit_reader.reset()"
                 prev_was_bits = False
